@@ -77,7 +77,7 @@ def main():
                 res['demo_clean_rc'], res['demo_patched_rc'], res['baseline_patched'] = rc0, rc1, ob.strip().split('\n')[0]
             t0 = time.time()
             rc, out = sh([os.path.join(VERIF, 'vcheck'), prop, tier], cwd=VERIF,
-                         env={'PYTOUGH_REPO': tree, 'VERIF_OUT': outdir}, timeout=7200)
+                         env={'PYTOUGH_REPO': tree, 'VERIF_OUT': outdir}, timeout=2400)
             viol = [l for l in out.split('\n') if l.startswith('VIOLATION')]
             sigs = [l.strip() for l in out.split('\n') if l.strip().startswith('sig=')]
             res[tier] = {'exit': rc, 'violations': len(viol), 'first_sig': sigs[0][:300] if sigs else None,
